@@ -10,7 +10,18 @@ import "fmt"
 // computed from the wrong quantity differs exactly there), nested so that the
 // inner length prefix sits inside further length-prefixed frames.
 
-var boundaryTargets = []int{125, 126, 127, 128, 129, 130, 16381, 16382, 16383, 16384, 16385, 16386}
+// every size from a dozen bytes below the boundary to a few above it: a frame a
+// few bytes larger than the solved body (a map entry: key field + value tag +
+// length; a slice element; body + tag) then lands exactly on the boundary too
+var boundaryTargets = func() []int {
+	var out []int
+	for _, b := range []int{128, 16384} {
+		for d := -14; d <= 3; d++ {
+			out = append(out, b+d)
+		}
+	}
+	return out
+}()
 
 func (g *Gen) boundaryCase(cfg string) (*TyDef, *Val) {
 	idx := func() string { return fmt.Sprint(g.r.Pick("1", "2", "3", "15", "16", "17", "200", "2047", "2048")) }
@@ -76,7 +87,12 @@ func (g *Gen) boundaryCase(cfg string) (*TyDef, *Val) {
 	wrapT, wrapV := inner, v
 	depth := 1 + g.r.Intn(3)
 	for d := 0; d < depth; d++ {
-		switch g.r.Intn(6) {
+		switch g.r.Intn(8) {
+		case 6, 7:
+			// a proto-tagged map (repeated entries, each with its own tag and length)
+			k := g.r.Pick("k", "", "key", "0123456789")
+			wrapT = Struct(&FieldDef{Name: "PM", Exported: true, Plenc: idx() + ",proto", T: Map(B("str"), wrapT)})
+			wrapV = &Val{K: "r", L: []*Val{{K: "m", M: [][2]*Val{{{K: "s", Data: []byte(k)}, wrapV}}}}}
 		case 0, 1, 2:
 			wrapT, wrapV = Struct(F("X", idx(), wrapT)), &Val{K: "r", L: []*Val{wrapV}}
 		case 3:
